@@ -29,6 +29,13 @@ class Run:
             # a network stack whose purpose ids are per (remote node, socket id), not the socket id itself
             self.purpose_map[(r_, s_)] = p_
         self.stack = hc.RecordingStack(purpose_of=lambda remote, socket: self.purpose_map.get((remote, socket), socket))
+        if scenario.get("stack_refuses_priority") is not None:
+            # a network stack that refuses (raises on) requests of a priority it does not serve
+            def refuse(request, _p=scenario["stack_refuses_priority"]):
+                if getattr(request, "priority", None) == _p:
+                    self.stack.puts.pop()
+                    raise RuntimeError(f"request refused by the network stack: priority {_p} is not served")
+            self.stack.on_put = refuse
         self.ex = hc.MonitoredExecutor(name="node", node_id=scenario.get("node_id", 0), step_limit=5000)
         self.ex.network_stack = self.stack
         self.subs = []
@@ -167,6 +174,10 @@ class Run:
         except hc.StepLimit:
             raise Violation("step limit reached (livelock)")
         except Exception as exc:
+            if self.sc["apps"][i].get("faults") and "refused by the network stack" in str(exc):
+                self.state[i] = "done"      # the subroutine whose request the stack refused ends with that error, as it should
+                self.refused_subroutines = getattr(self, "refused_subroutines", 0) + 1
+                return
             raise Violation(f"executor raised {type(exc).__name__}: {str(exc).splitlines()[0][:200]}")
 
     def _stop(self, i: int) -> None:
